@@ -230,7 +230,7 @@ impl Scenario for C05 {
             components_stubbed: &["TCP socket (SimNet pipe)", "peer (byte feeder / collector)"],
             assumptions: &["TCP semantics: bytes arrive in order, unmodified, until close/reset", "allocation size measured per thread by a counting global allocator"],
             fault_prefixes: &["fault.", "net."],
-            expected_probes: &["probe.c05.eof_in_prefix", "probe.c05.eof_in_body", "probe.c05.eof_between_frames", "probe.c05.overcap_refused", "probe.c05.zero_len_frame", "probe.c05.len_65536", "probe.c05.handover_coalesced", "probe.c05.frame_above_16_mib", "probe.c05.idle_beyond_read_timeout", "probe.c05.prefix_in_two_pieces", "probe.c05.mode_switched_after_construction", "probe.c05.large_frame_that_is_no_message", "probe.c05.node_loop_without_timeout", "probe.c05.read_timed_out_inside_a_frame", "probe.c05.control_only_frame"],
+            expected_probes: &["probe.c05.eof_in_prefix", "probe.c05.eof_in_body", "probe.c05.eof_between_frames", "probe.c05.overcap_refused", "probe.c05.zero_len_frame", "probe.c05.len_65536", "probe.c05.handover_coalesced", "probe.c05.frame_above_16_mib", "probe.c05.idle_beyond_read_timeout", "probe.c05.prefix_in_two_pieces", "probe.c05.mode_switched_after_construction", "probe.c05.large_frame_that_is_no_message", "probe.c05.node_loop_without_timeout", "probe.c05.read_timed_out_inside_a_frame", "probe.c05.control_only_frame", "probe.c05.frame_length_multiple_of_64_kib"],
         }
     }
 }
@@ -599,7 +599,21 @@ async fn nodeloop(w: &Arc<World>, p: &Plan) {
         if !body.is_empty() {
             body[0] = i as u8;
         }
-        let msg = Val::tuple(vec![Val::int(i as i128), Val::Bin(body)]);
+        let mut msg = Val::tuple(vec![Val::int(i as i128), Val::Bin(body.clone())]);
+        // frames whose total length is a round number (a multiple of 64 KiB, 4 KiB, 1 KiB or 1 MiB): whoever
+        // reads a body in pieces of such a size meets an empty last piece
+        if *l >= 900 && *l < 4_000_000 && r.chance(1, 2) {
+            let calm = p.reader.chunking != Chunking::Byte && p.cut_every == 0 && (p.cap == 0 || p.cap >= 4096);
+            // (a megabyte through a byte-at-a-time reader or a one-byte pipe with pauses would outlast the loop's ten minutes)
+            let unit = if calm { *r.pick(&[1usize << 16, 1 << 16, 1 << 12, 1 << 10, 1 << 20]) } else { *r.pick(&[1usize << 12, 1 << 10]) };
+            let have = wire::pass_through(&ctl, Some(&msg)).len();
+            let target = have.div_ceil(unit) * unit;
+            body.extend(std::iter::repeat(0x5a).take(target - have));
+            msg = Val::tuple(vec![Val::int(i as i128), Val::Bin(body)]);
+            if wire::pass_through(&ctl, Some(&msg)).len() == target {
+                w.stat(if unit == 1 << 16 { "probe.c05.frame_length_multiple_of_64_kib" } else { "c05.frame_length_round" });
+            }
+        }
         stream.extend_from_slice(&wire::frame4(&wire::pass_through(&ctl, Some(&msg))));
         expect.push(Some((ctl, msg)));
         // a message that consists of its control tuple alone (LINK), usually much shorter than its neighbours
